@@ -88,12 +88,13 @@ def main():
             print("patch does not apply to /repo", ra.stderr[:300])
             return 2
         for c in checks:
-            rc = sh(f"./check {c}", cwd=VERIF, timeout=3600)
+            rc = sh(f"./check {c}", cwd=VERIF, timeout=3600, env=dict(os.environ, VERIF_OUT_DIR=f"/tmp/seedout_{name}"))
             lines = [ln for ln in rc.stdout.splitlines() if ln.startswith("VIOLATION") or ln.startswith("[")]
             caught[c] = {"exit": rc.returncode, "violations": [ln for ln in lines if ln.startswith("VIOLATION")][:8], "summary": [ln for ln in lines if ln.startswith("[")][-1:]}
     finally:
         sh(f"git -C {REPO} checkout -- .")
         sh(f"git -C {REPO} clean -fdq -- ufl")
+        shutil.rmtree(f"/tmp/seedout_{name}", ignore_errors=True)
     res["checks"] = caught
     res["caught_by"] = [c for c, v in caught.items() if v["exit"] == 1 and v["violations"]]
     print(json.dumps({"caught_by": res["caught_by"], "checks": {c: (v["exit"], len(v["violations"])) for c, v in caught.items()}}))
